@@ -141,13 +141,13 @@ def main(tier):
                 k = next((j for j, (a, b) in enumerate(zip(il, ml)) if a != b), min(len(il), len(ml)))
                 chk.violation("step-mismatch", "debugger state differs from the script rules (model) at command #%d" % k,
                               {"stream": name, "case": c, "impl": il[max(0, k - 1):k + 1], "model_eq_spec": ml[max(0, k - 1):k + 1]})
-    # a broken proof obligation / translation without a concrete input so far: widen the search with the resource-limit boundary scripts
-    if not chk.proofs_ok and not chk.violations:
-        from props import c10
-        for name, cases in c10.gen(chk).items():
-            diffs = chk.compare("search:" + name, cases, nontrivial=nontrivial)
-            for c, il, ml, sl, fl in diffs[:3]:
-                k = next((j for j, (a, b) in enumerate(zip(il, ml)) if a != b), min(len(il), len(ml)))
-                chk.violation("step-mismatch", "debugger state differs from the script rules (model) at command #%d" % k,
-                              {"stream": "search:" + name, "case": c[:6000], "impl": [l[:800] for l in il[max(0, k - 1):k + 1]], "model_eq_spec": [l[:800] for l in ml[max(0, k - 1):k + 1]]})
+    # the resource-limit boundary scripts of C10 (op count incl. the P2SH redeem script, stack size, push size, script size) are part of
+    # "the same outcome at the same operation": run on every change, and they are where a broken translation usually shows
+    from props import c10
+    for name, cases in c10.gen(chk).items():
+        diffs = chk.compare("limits:" + name, cases, nontrivial=nontrivial)
+        for c, il, ml, sl, fl in diffs[:3]:
+            k = next((j for j, (a, b) in enumerate(zip(il, ml)) if a != b), min(len(il), len(ml)))
+            chk.violation("step-mismatch", "debugger state differs from the script rules (model) at command #%d" % k,
+                          {"stream": "limits:" + name, "case": c[:6000], "impl": [l[:800] for l in il[max(0, k - 1):k + 1]], "model_eq_spec": [l[:800] for l in ml[max(0, k - 1):k + 1]]})
     return chk.finish(RULE)
